@@ -25,14 +25,6 @@ func vhStartWorld() (*vhWorld, int) {
 	return w, m
 }
 
-func vhHasString(xs []string, s string) bool {
-	for _, x := range xs {
-		if x == s {
-			return true
-		}
-	}
-	return false
-}
 
 // VH_C12_StartGame: the hand is created with, and publishes, the blinds in
 // force at the call; a later UpdateBlind touches neither.
